@@ -6,17 +6,18 @@ import os
 PROPS = {
     'C01': ['DISPATCH', 'ACDUAL', 'ORDTOTAL', 'FRAMERESET', 'MERGE'],
     'C02': ['UNIONCONTRIB', 'PRODUCT', 'WORKLIST', 'COW'],
-    'C03': ['SIZEEQ', 'WORKLIST', 'COW'],
+    'C03': ['SIZEEQ', 'WORKLIST', 'DRAIN', 'COW'],
     'C04': ['KIND', 'SIMMAP', 'COPYALL'],
     'C05': ['SIMMAP', 'KIND', 'COW'],
     'C07': ['DISPATCH', 'ACDUAL', 'MERGE', 'PARALLEL', 'COLLECTALL'],
-    'C08': ['UNIONCONTRIB', 'PRODUCT', 'WORKLIST', 'INIT', 'COLLECTALL'],
+    'C08': ['UNIONCONTRIB', 'PRODUCT', 'WORKLIST', 'DRAIN', 'INIT', 'COLLECTALL'],
     'C09': ['DISPATCH', 'ACDUAL', 'MEMO', 'HASHEQ', 'ORDTOTAL'],
-    'C10': ['UNIONCONTRIB', 'PRODUCT', 'PAIRFIELD', 'FINCHK', 'WORKLIST', 'COW'],
+    'C10': ['UNIONCONTRIB', 'PRODUCT', 'PAIRFIELD', 'FINCHK', 'WORKLIST', 'DRAIN', 'COW'],
     'C11': ['COW', 'CLEARALL', 'HASHCONS'],
     'C13': ['TEXT'],
     'C12': ['COW', 'HASHCONS', 'ITER', 'CLEARALL'],
     'C14': ['KIND', 'COW'],
+    'C15': ['FINCHK', 'WORKLIST', 'DRAIN', 'KIND', 'HASHCONS', 'COW'],
     'C17': ['CANON', 'TEXT'],
     'C18': ['REFCNT'],
     'C19': ['KIND', 'SIMMAP', 'DISPATCH'],
@@ -45,6 +46,9 @@ FILTER = {
     ('C10', 'UNIONCONTRIB'): r'explicit_finite', ('C10', 'PRODUCT'): r'explicit_finite', ('C10', 'WORKLIST'): r'explicit_finite',
     ('C10', 'COW'): r'explicit_finite', ('C10', 'FINCHK'): r'explicit_finite',
     ('C17', 'TEXT'): r'sym_var_asgn', ('C13', 'TEXT'): r'timbuk|loadable|convert|aut_core|sym_var',
+    ('C15', 'FINCHK'): r'explicit_tree', ('C15', 'WORKLIST'): r'explicit_tree_candidate|explicit_tree_unreach', ('C15', 'DRAIN'): r'explicit_tree_candidate|explicit_tree_unreach',
+    ('C15', 'KIND'): r'explicit_tree_candidate', ('C15', 'HASHCONS'): r'explicit_tree_candidate', ('C15', 'COW'): r'explicit_tree_candidate|explicit_tree_unreach',
+    ('C03', 'DRAIN'): r'explicit_tree', ('C08', 'DRAIN'): r'bdd_', ('C10', 'DRAIN'): r'explicit_finite',
     ('C12', 'COW'): r'explicit_tree',
     ('C14', 'COW'): r'explicit_tree', ('C14', 'KIND'): r'explicit_tree|explicit_finite|bdd_',
     ('C19', 'DISPATCH'): r'aut_base\.hh|explicit_tree_incl\.cc', ('C19', 'KIND'): r'explicit_tree',
